@@ -46,7 +46,7 @@ THEOREMS = [
     "drf_noninterference", "drf_results",
 ]
 
-PRE = "From SV Require Import Lib.Base C13.Interleave C13.Model.\nLocal Open Scope N_scope."
+PRE = "From SV Require Import Lib.Base C13.Interleave C13.Model."
 
 TNS = "urn:c13"
 ENV = "http://schemas.xmlsoap.org/soap/envelope/"
@@ -309,9 +309,11 @@ class World(object):
         self.EchoTransport = EchoTransport
 
     def new_client(self, variant="plain"):
+        """variant: a name in VARIANTS or '+'-joined names (applied in order)."""
         c = self.sudsutil.client_from_wsdl(WSDL, transport=self.EchoTransport())
-        if VARIANTS[variant]:
-            c.set_options(**VARIANTS[variant])
+        for v in variant.split("+"):
+            if VARIANTS[v]:
+                c.set_options(**VARIANTS[v])
         return c
 
     # ---- invoking -------------------------------------------------------
@@ -433,8 +435,8 @@ class Graph(object):
 
     def fields(self, o):
         if isinstance(o, dict):
-            return [(("key", self.kid(k)), v) for k, v in list(o.items())] + \
-                   [(("keyobj", self.kid(k)), k) for k in list(o.keys()) if not isinstance(k, _ATOM)]
+            return [(("key", self.kid(k)), v) for k, v in list(dict.items(o))] + \
+                   [(("keyobj", self.kid(k)), k) for k in list(dict.keys(o)) if not isinstance(k, _ATOM)]
         if isinstance(o, (list, tuple)):
             return [(("idx", n), v) for n, v in enumerate(list(o))]
         if isinstance(o, set):
@@ -710,7 +712,9 @@ class Footprint(object):
         if loc.startswith("(LResolved") and new is not None and new[0] == "o":
             key = field[1] == "True"
             again = run_impl(lambda: pobj._TypedContent__resolve_type(key))
-            idem = again[0] == "ok" and id(again[1]) == new[1]
+            stored = pobj.resolved_cache.get(key)
+            idem = again[0] == "ok" and stored is not None and id(stored) == new[1] and \
+                same_schema_object(again[1], stored)
         elif loc.startswith("(LFactory") and new is not None and new[0] == "o":
             cls = None
             for k, v in o.items():
@@ -719,6 +723,18 @@ class Footprint(object):
             if isinstance(cls, type):
                 idem = key == ".".join((cls.__name__, str(cls.__bases__)))
         return {"loc": loc, "what": what, "empty": empty, "idem": idem, "transient": False}
+
+
+def same_schema_object(a, b):
+    """Recomputing a resolution yields the same schema node, or -- for XSD
+    built-in types, which TypeQuery instantiates on every lookup -- an equal
+    built-in (same class, same qualified name)."""
+    if a is b:
+        return True
+    try:
+        return type(a) is type(b) and a.builtin() and b.builtin() and a.qname == b.qname
+    except Exception:
+        return False
 
 
 def ow_term(d):
@@ -896,6 +912,17 @@ class Setup(object):
         self.variants = variants      # option variant per client
         self.threads = threads        # [(client index, kind, spec)]
 
+    def effective(self, i):
+        """The option variant client i really carries (a clone inherits)."""
+        if self.relation == "clone2":
+            chain = self.variants[: i + 1]
+        elif self.relation == "clone":
+            chain = [self.variants[0]] + ([self.variants[i]] if i else [])
+        else:
+            chain = [self.variants[i]]
+        chain = [v for v in chain if v != "plain"]
+        return "+".join(chain) or "plain"
+
     def payload(self):
         return {"relation": self.relation, "variants": self.variants,
                 "threads": [[c, k, s] for c, k, s in self.threads]}
@@ -979,7 +1006,7 @@ class Runner(object):
         s = Scheduler(w, thunks, plan, lines=lines)
         results = s.run()
         entries = w.log[n0:]
-        solos = [self.solo(setup.variants[c], kind, spec) for c, kind, spec in setup.threads]
+        solos = [self.solo(setup.effective(c), kind, spec) for c, kind, spec in setup.threads]
         outs = []
         for tid, r in enumerate(results):
             mine = [w.canon_request(e) for e in entries if e[0] == s.ident[tid]]
@@ -1295,10 +1322,17 @@ def pick_points(rng, names, budget, exhaustive):
     anchored = sorted(i for nm, i in first.items() if nm.split(":")[0] in ANCHOR_FILES)
     others = sorted(i for nm, i in first.items() if nm.split(":")[0] not in ANCHOR_FILES)
     pts = set()
-    # every statement-level step of MultiRef.process and of get_reply
+    # the steps of MultiRef.process and of get_reply: first occurrence of each
+    # function event plus a sample of the later ones
+    later = []
     for i, nm in enumerate(names, 1):
         if nm.split(":")[0] == "multiref.py" or ":get_reply:" in nm or ":process_reply:" in nm:
-            pts.add(i)
+            if first[nm] == i:
+                pts.add(i)
+            else:
+                later.append(i)
+    rng.shuffle(later)
+    pts.update(later[: max(2, budget // 4)])
     rng.shuffle(anchored)
     rng.shuffle(others)
     take = max(0, budget - len(pts))
@@ -1360,7 +1394,7 @@ def schedule_cases(ck, world, runner, rng, quick, memo_cells, suspicious_fp, fp_
     if quick:
         # every kind preempted at least ~6 times with an encoded and a non-encoded partner
         pairs = pairs[:21]
-        per_pair = 14
+        per_pair = 30
     else:
         sel = [("enc-echo", "enc-item"), ("enc-item", "enc-echo"), ("doc-echo", "enc-echo"),
                ("enc-echo", "doc-find"), ("lit-item", "enc-item"), ("doc-find", "doc-echo2"),
